@@ -116,14 +116,20 @@ class Group(object):
         class EGPoint(ec.PointJacobi):
             """P = e*G, 1 <= e <= n-1 (never the identity)"""
 
-            def __init__(self, e):
+            def __init__(self, e, raw=None):
                 self.e = e
+                self.raw = raw      # coordinates as handed to the constructor (z == 1:
+                                    # the real class returns them as stored, unreduced)
 
             # coordinates by table lookup
             def x(self):
+                if self.raw is not None:
+                    return self.raw[0]
                 return grp.lookup(self.e, 0)
 
             def y(self):
+                if self.raw is not None:
+                    return self.raw[1]
                 return grp.lookup(self.e, 1)
 
             def order(self):
@@ -286,9 +292,11 @@ class Group(object):
         return _mk(t)
 
     def from_coords(self, x, y):
-        oc = self.on_curve(x, y)
+        """the point a (x, y, 1) triple denotes: coordinates count modulo p"""
+        xr, yr = x % self.p, y % self.p
+        oc = self.on_curve(xr, yr)
         if oc if isinstance(oc, bool) else bool(oc):
-            return self.EGPoint(self.index(x, y))
+            return self.EGPoint(self.index(xr, yr), raw=(x, y))
         return self.OffCurve(x, y)
 
     def sqrt(self, a_, p_):
